@@ -260,7 +260,7 @@ structure OctLaws (P : Prims) : Prop where
 /-- `perform_encrypt` for one recipient of a direct-encryption algorithm: nothing is written into the header, the CEK
 is the key's octets (of exactly `cek_size` bits), the encrypted key is empty, the IV is a fresh draw of `iv_size / 8`. -/
 theorem performEncrypt_dir (P : Prims) (O : OctLaws P) (E : Env) (T : KeyTables) (C : EncConsts) (reg : JweRegistry) (o : EObj)
-    (hk : o.kind = .compact) (r : ERecipient) (hrh : r.header = none) (pt : Bytes) (e : Encrypted)
+    (r : ERecipient) (heh : eHeaders o r = o.prot) (pt : Bytes) (e : Encrypted)
     (algv : JVal) (alg : JweAlgRow) (hav : pyGetItemStr (.obj o.prot) "alg" = .ok algv) (hga : reg.getAlg algv = .ok alg)
     (hmode : alg.directMode = true ∧ alg.agreement = false)
     (h : performEncrypt P E T C reg o [r] pt = .ok e) :
@@ -268,7 +268,6 @@ theorem performEncrypt_dir (P : Prims) (O : OctLaws P) (E : Env) (T : KeyTables)
     IsBytes e.iv ∧ IsBytes e.ciphertext ∧ IsBytes e.tag ∧
     ∃ enc encv, o.prot.get? "enc" = some encv ∧ reg.getEnc encv = .ok enc ∧ r.key.raw.length * 8 = enc.cekSize ∧
       e.iv.length = enc.ivSize / 8 := by
-  have heh : eHeaders o r = o.prot := by simp [eHeaders, hk, hrh]
   simp only [performEncrypt, bind_eq_ok, pure_eq_ok, ofOpt_ok_iff] at h
   obtain ⟨encv, hencv, enc, henc, ⟨o1, rs1, cek, d1⟩, hpre, iv, hiv, m, hm, pseg, hpseg, ⟨ct, tag⟩, henc2, rs2, hpost, rfl⟩ := h
   unfold preEncrypt at hpre
@@ -314,7 +313,7 @@ theorem c04_compact_token_dir (P : Prims) (L : AeadLaws P) (O : OctLaws P)
       cases hc
   obtain ⟨hpe, huse⟩ := hpe
   obtain ⟨hobj, hcek, hrec, hkt, hbi, hbc, hbt, enc, encv, hencv, hge, hsz, hivl⟩ :=
-    performEncrypt_dir P O E T C reg _ rfl _ rfl pt e algv alg hav hga hmode hpe
+    performEncrypt_dir P O E T C reg _ _ (by simp [eHeaders]) pt e algv alg hav hga hmode hpe
   have hprot : e.obj.prot = prot := by rw [hobj]
   have hcont : ∀ kk v, pyGetItemStr (.obj prot) kk = .ok v → Dict.contains prot kk = true := by
     intro kk v hv
@@ -356,7 +355,7 @@ theorem c04_compact_token_dir (P : Prims) (L : AeadLaws P) (O : OctLaws P)
 /-- `perform_encrypt` for one recipient of a key-wrapping / key-encryption algorithm (neither direct nor agreement):
 the CEK is a fresh draw of `cek_size / 8` octets, handed to `encrypt_cek`, whose recipient is the one emitted. -/
 theorem performEncrypt_wrap (P : Prims) (O : OctLaws P) (E : Env) (T : KeyTables) (C : EncConsts) (reg : JweRegistry) (o : EObj)
-    (hk : o.kind = .compact) (r : ERecipient) (hrh : r.header = none) (pt : Bytes) (e : Encrypted)
+    (r : ERecipient) (heh : eHeaders o r = o.prot) (pt : Bytes) (e : Encrypted)
     (algv : JVal) (alg : JweAlgRow) (hav : pyGetItemStr (.obj o.prot) "alg" = .ok algv) (hga : reg.getAlg algv = .ok alg)
     (hmode : alg.directMode = false ∧ alg.agreement = false)
     (h : performEncrypt P E T C reg o [r] pt = .ok e) :
@@ -364,7 +363,6 @@ theorem performEncrypt_wrap (P : Prims) (O : OctLaws P) (E : Env) (T : KeyTables
     ∃ enc encv r' d', o.prot.get? "enc" = some encv ∧ reg.getEnc encv = .ok enc ∧
       encryptCek P E alg C.gcmIvLen C.saltLen C.defaultP2c e.cek o r (({} : Draws).next (enc.cekSize / 8)) = .ok (e.obj, r', d') ∧
       e.recipients = [r'] ∧ e.cek.length = enc.cekSize / 8 ∧ e.iv.length = enc.ivSize / 8 := by
-  have heh : eHeaders o r = o.prot := by simp [eHeaders, hk, hrh]
   simp only [performEncrypt, bind_eq_ok, pure_eq_ok, ofOpt_ok_iff] at h
   obtain ⟨encv, hencv, enc, henc, ⟨o1, rs1, cek, d1⟩, hpre, iv, hiv, m, hm, pseg, hpseg, ⟨ct, tag⟩, henc2, rs2, hpost, rfl⟩ := h
   unfold preEncrypt at hpre
@@ -408,7 +406,7 @@ theorem c04_compact_token_aeskw (P : Prims) (L : AeadLaws P) (KL : KwLaws P) (O 
       cases hc
   obtain ⟨hpe, huse⟩ := hpe
   obtain ⟨hbi, hbc, hbt, enc, encv, r', d', hencv, hge, hek, hrec, hlc, hli⟩ :=
-    performEncrypt_wrap P O E T C reg _ rfl _ rfl pt e algv alg hav hga hmode hpe
+    performEncrypt_wrap P O E T C reg _ _ (by simp [eHeaders]) pt e algv alg hav hga hmode hpe
   have hek0 := hek
   unfold encryptCek at hek
   simp only [hc, bind_eq_ok, pure_eq_ok, Prod.mk.injEq] at hek
@@ -474,7 +472,7 @@ theorem c04_compact_token_rsa (P : Prims) (L : AeadLaws P) (KL : KwLaws P) (O : 
       obtain ⟨_, hc, _⟩ := hm
       cases hc
   obtain ⟨hbi, hbc, hbt, enc, encv, r', d', hencv, hge, hek, hrec, hlc, hli⟩ :=
-    performEncrypt_wrap P O E T C reg _ rfl _ rfl pt e algv alg hav hga hmode hpe
+    performEncrypt_wrap P O E T C reg _ _ (by simp [eHeaders]) pt e algv alg hav hga hmode hpe
   have hek0 := hek
   unfold encryptCek at hek
   simp only [hc, bind_eq_ok, pure_eq_ok, Prod.mk.injEq] at hek
@@ -542,7 +540,7 @@ theorem c04_compact_token_gcmkw (P : Prims) (L : AeadLaws P) (KL : KwLaws P) (O 
       cases hc
   obtain ⟨hpe, huse⟩ := hpe
   obtain ⟨hbi, hbc, hbt, enc, encv, r', d', hencv, hge, hek, hrec, hlc, hli⟩ :=
-    performEncrypt_wrap P O E T C reg _ rfl _ rfl pt e algv alg hav hga hmode hpe
+    performEncrypt_wrap P O E T C reg _ _ (by simp [eHeaders]) pt e algv alg hav hga hmode hpe
   have hek0 := hek
   unfold encryptCek at hek
   simp only [hc, bind_eq_ok, pure_eq_ok, Prod.mk.injEq, addHeader] at hek
@@ -624,7 +622,7 @@ theorem c04_compact_token_pbes2 (P : Prims) (L : AeadLaws P) (KL : KwLaws P) (O 
       cases hc
   obtain ⟨hpe, huse⟩ := hpe
   obtain ⟨hbi, hbc, hbt, enc, encv, r', d', hencv, hge, hek, hrec, hlc, hli⟩ :=
-    performEncrypt_wrap P O E T C reg _ rfl _ rfl pt e algv alg hav hga hmode hpe
+    performEncrypt_wrap P O E T C reg _ _ (by simp [eHeaders]) pt e algv alg hav hga hmode hpe
   have hek0 := hek
   unfold encryptCek at hek
   simp only [hc, bind_eq_ok, pure_eq_ok, Prod.mk.injEq] at hek
@@ -681,21 +679,21 @@ theorem c04_compact_token_pbes2 (P : Prims) (L : AeadLaws P) (KL : KwLaws P) (O 
 /-- `perform_encrypt` for one recipient of a direct key-agreement algorithm: an ephemeral key is prepared, its public
 export is written into the protected header as `epk` (nothing else changes), the CEK is the agreed key. -/
 theorem performEncrypt_agree_direct (P : Prims) (O : OctLaws P) (E : Env) (T : KeyTables) (C : EncConsts) (reg : JweRegistry)
-    (prot : Dict) (k : Key) (pt : Bytes) (e : Encrypted)
+    (prot : Dict) (k : Key) (sender : Option Key) (pt : Bytes) (e : Encrypted)
     (algv : JVal) (alg : JweAlgRow) (hav : pyGetItemStr (.obj prot) "alg" = .ok algv) (hga : reg.getAlg algv = .ok alg)
     (hmode : alg.directMode = true ∧ alg.agreement = true)
-    (h : performEncrypt P E T C reg { kind := .compact, prot := prot } [{ header := none, key := k }] pt = .ok e) :
+    (h : performEncrypt P E T C reg { kind := .compact, prot := prot } [{ header := none, key := k, senderKey := sender }] pt = .ok e) :
     IsBytes e.iv ∧ IsBytes e.ciphertext ∧ IsBytes e.tag ∧ alg.checkKeyType k = .ok () ∧
     ∃ enc encv eph epkd, prot.get? "enc" = some encv ∧ reg.getEnc encv = .ok enc ∧
       P.genEphemeral 0 k = .ok eph ∧ eph.asDict T (some false) [] = .ok epkd ∧
       e.obj = { kind := .compact, prot := Dict.set prot "epk" (.obj epkd) } ∧
-      e.recipients = [{ header := none, key := k, ephemeral := some eph, encryptedKey := some [] }] ∧
-      encryptAgreedKey P E alg enc e.obj { header := none, key := k, ephemeral := some eph } none = .ok e.cek ∧
+      e.recipients = [{ header := none, key := k, senderKey := sender, ephemeral := some eph, encryptedKey := some [] }] ∧
+      encryptAgreedKey P E alg enc e.obj { header := none, key := k, senderKey := sender, ephemeral := some eph } none = .ok e.cek ∧
       e.cek.length * 8 = enc.cekSize ∧ e.iv.length = enc.ivSize / 8 := by
   simp only [performEncrypt, bind_eq_ok, pure_eq_ok, ofOpt_ok_iff] at h
   obtain ⟨encv, hencv, enc, henc, ⟨o1, rs1, cek, d1⟩, hpre, iv, hiv, m, hm, pseg, hpseg, ⟨ct, tag⟩, henc2, rs2, hpost, rfl⟩ := h
   unfold preEncrypt at hpre
-  have heh : eHeaders { kind := .compact, prot := prot } { header := none, key := k } = prot := by simp [eHeaders]
+  have heh : eHeaders { kind := .compact, prot := prot } { header := none, key := k, senderKey := sender } = prot := by simp [eHeaders]
   rw [heh] at hpre
   simp only [bind_eq_ok, hav, hga, Except.ok.injEq, exists_eq_left', hmode.1, hmode.2, if_true, pure_eq_ok, preEncrypt, Prod.mk.injEq,
     ensure_eq_ok] at hpre
@@ -742,7 +740,7 @@ theorem c04_compact_token_ecdh_es (P : Prims) (L : AeadLaws P) (O : OctLaws P)
       obtain ⟨_, hc, _⟩ := hm
       cases hc
   obtain ⟨hbi, hbc, hbt, hktp, enc, encv, eph, epkd, hencv, hge, hgen, hexp, hobj, hrec, hagree, hsz, hli⟩ :=
-    performEncrypt_agree_direct P O E T C reg prot pk pt e algv alg hav hga hmode hpe
+    performEncrypt_agree_direct P O E T C reg prot pk none pt e algv alg hav hga hmode hpe
   obtain ⟨epk, himp, hsym⟩ := hdh eph epkd hgen hexp
   have hprot : e.obj.prot = Dict.set prot "epk" (.obj epkd) := by rw [hobj]
   have hget : ∀ kk, kk ≠ "epk" → e.obj.prot.get? kk = prot.get? kk := by
@@ -785,6 +783,284 @@ theorem c04_compact_token_ecdh_es (P : Prims) (L : AeadLaws P) (O : OctLaws P)
       subst this
       have := h8 enc2 encv2 h1 h2
       exact ⟨by omega, hsz⟩)
+    hz
+
+/-! ## Key agreement with key wrapping (ECDH-ES+A128KW / +A192KW / +A256KW) -/
+
+/-- `perform_encrypt` for one recipient of a key-agreement-with-key-wrapping algorithm (not ECDH-1PU): an ephemeral key
+is prepared and published as `epk`, the CEK is a fresh draw, and after the content encryption the CEK is wrapped under
+the agreed key. -/
+theorem performEncrypt_agree_wrap (P : Prims) (O : OctLaws P) (E : Env) (T : KeyTables) (C : EncConsts) (reg : JweRegistry)
+    (prot : Dict) (k : Key) (sender : Option Key) (pt : Bytes) (e : Encrypted)
+    (algv : JVal) (alg : JweAlgRow) (hav : pyGetItemStr (.obj prot) "alg" = .ok algv) (hga : reg.getAlg algv = .ok alg)
+    (hmode : alg.directMode = false ∧ alg.agreement = true)
+    (h : performEncrypt P E T C reg { kind := .compact, prot := prot } [{ header := none, key := k, senderKey := sender }] pt = .ok e) :
+    IsBytes e.iv ∧ IsBytes e.ciphertext ∧ IsBytes e.tag ∧ alg.checkKeyType k = .ok () ∧
+    ∃ enc encv eph epkd auk ek, prot.get? "enc" = some encv ∧ reg.getEnc encv = .ok enc ∧
+      P.genEphemeral 0 k = .ok eph ∧ eph.asDict T (some false) [] = .ok epkd ∧
+      e.obj = { kind := .compact, prot := Dict.set prot "epk" (.obj epkd) } ∧
+      e.recipients = [{ header := none, key := k, senderKey := sender, ephemeral := some eph, encryptedKey := some ek }] ∧
+      encryptAgreedKey P E alg enc e.obj { header := none, key := k, senderKey := sender, ephemeral := some eph }
+        (if alg.tagAware then some e.tag else none) = .ok auk ∧
+      checkOpKeySize alg.keySize auk = .ok () ∧ P.aesKeyWrap auk e.cek = .ok ek ∧
+      e.cek.length = enc.cekSize / 8 ∧ e.iv.length = enc.ivSize / 8 := by
+  simp only [performEncrypt, bind_eq_ok, pure_eq_ok, ofOpt_ok_iff] at h
+  obtain ⟨encv, hencv, enc, henc, ⟨o1, rs1, cek, d1⟩, hpre, iv, hiv, m, hm, pseg, hpseg, ⟨ct, tag⟩, henc2, rs2, hpost, rfl⟩ := h
+  unfold preEncrypt at hpre
+  have heh : eHeaders { kind := .compact, prot := prot } { header := none, key := k, senderKey := sender } = prot := by simp [eHeaders]
+  rw [heh] at hpre
+  simp only [bind_eq_ok, hav, hga, Except.ok.injEq, exists_eq_left', hmode.1, hmode.2, Bool.false_eq_true, if_false, if_true,
+    List.isEmpty_nil, pure_eq_ok, preEncrypt, Prod.mk.injEq] at hpre
+  obtain ⟨_, _, ⟨o2, r2, d2⟩, hprep, c0, hc0, rfl, rfl, rfl, rfl⟩ := hpre
+  unfold prepareEphemeral at hprep
+  simp only [bind_eq_ok, pure_eq_ok, Prod.mk.injEq, addHeader] at hprep
+  obtain ⟨_, hkt, eph0, hgen, _, rfl, epkd, hexp, rfl, rfl, _⟩ := hprep
+  simp only [postEncrypt, bind_eq_ok, pure_eq_ok, Except.ok.injEq, exists_eq_left'] at hpost
+  obtain ⟨auk, hauk, _, hsz, ek, hwrap, rfl⟩ := hpost
+  obtain ⟨hbi, hli⟩ := O.token _ _ _ hiv
+  obtain ⟨_, hlc⟩ := O.token _ _ _ hc0
+  obtain ⟨hbc, hbt⟩ := O.enc _ _ _ _ _ _ _ henc2
+  refine ⟨hbi, hbc, hbt, ?_, enc, encv, eph0, epkd, auk, ek, hencv, henc, hgen, hexp, rfl, rfl, hauk, ?_, hwrap, hlc, hli⟩
+  · cases hu : alg.checkKeyType k with
+    | ok u => rfl
+    | error er => simp [hu] at hkt
+  · cases hs : checkOpKeySize alg.keySize auk with
+    | ok u => rfl
+    | error er => simp [hs] at hsz
+
+/-- **Compact JWE with ECDH-ES key agreement and AES key wrap.** -/
+theorem c04_compact_token_ecdh_es_kw (P : Prims) (L : AeadLaws P) (KL : KwLaws P) (O : OctLaws P)
+    (hwrapB : ∀ k c w, P.aesKeyWrap k c = .ok w → IsBytes w)
+    (JL : ∀ v bs, P.jsonDumps v = .ok bs → IsBytes bs ∧ P.jsonLoads bs = .ok v)
+    (E : Env) (K : KeyEnv) (T : KeyTables) (C : EncConsts) (Z : ZipConsts) (reg : JweRegistry)
+    (prot : Dict) (pt : Bytes) (pk sk : Key) (hkty : sk.kty = pk.kty) (tok : Bytes) (e : Encrypted)
+    (algv : JVal) (alg : JweAlgRow) (hav : pyGetItemStr (.obj prot) "alg" = .ok algv) (hga : reg.getAlg algv = .ok alg)
+    (hcls : (alg.cls == "ECDH1PUAlgModel") = false) (hmode : alg.directMode = false ∧ alg.agreement = true)
+    (htag : alg.tagAware = false)
+    (hdh : ∀ eph epkd, P.genEphemeral 0 pk = .ok eph → eph.asDict T (some false) [] = .ok epkd →
+      ∃ epk, importEpk P T sk.kty (.obj epkd) = .ok epk ∧ exchangeDeriveKey P E sk epk = exchangeDeriveKey P E eph pk)
+    (h8 : ∀ enc encv, prot.get? "enc" = some encv → reg.getEnc encv = .ok enc → enc.ivSize % 8 = 0 ∧ enc.cekSize % 8 = 0)
+    (h : encryptCompact P E K T C reg prot pt (.base (.key pk)) none = .ok (tok, e))
+    (huse : sk.checkUse "enc" = .ok ())
+    (hchk : reg.checkHeader (.obj e.obj.prot) true = .ok ())
+    (hz : ZipUndone P Z reg e.obj.prot pt) :
+    decryptCompact P E K T Z reg tok (.base (.key sk)) none = .ok (pt, e.obj.prot) ∧
+    (∀ kk, kk ≠ "epk" → e.obj.prot.get? kk = prot.get? kk) := by
+  have hpe : performEncrypt P E T C reg { kind := .compact, prot := prot } [{ header := none, key := pk, senderKey := none }] pt = .ok e := by
+    simp only [encryptCompact, guessKey, guessKeyBase, bind_eq_ok, pure_eq_ok] at h
+    obtain ⟨a, rfl, _, hu, e2, hpe, hm⟩ := h
+    simp only at hpe hm hu
+    split at hm
+    · simp only [bind_eq_ok, pure_eq_ok, Prod.mk.injEq] at hm
+      obtain ⟨_, _, _, rfl⟩ := hm
+      exact hpe
+    · simp only [bind_eq_ok] at hm
+      obtain ⟨_, hc, _⟩ := hm
+      cases hc
+  obtain ⟨hbi, hbc, hbt, hktp, enc, encv, eph, epkd, auk, ek, hencv, hge, hgen, hexp, hobj, hrec, hagree, hksz, hwrap, hlc, hli⟩ :=
+    performEncrypt_agree_wrap P O E T C reg prot pk none pt e algv alg hav hga hmode hpe
+  obtain ⟨epk, himp, hsym⟩ := hdh eph epkd hgen hexp
+  have hprot : e.obj.prot = Dict.set prot "epk" (.obj epkd) := by rw [hobj]
+  have hget : ∀ kk, kk ≠ "epk" → e.obj.prot.get? kk = prot.get? kk := by
+    intro kk h1
+    rw [hprot, Dict.get?_set_ne _ _ _ _ h1]
+  have hcont : ∀ kk v, kk ≠ "epk" → pyGetItemStr (.obj prot) kk = .ok v →
+      pyGetItemStr (.obj e.obj.prot) kk = .ok v ∧ Dict.contains e.obj.prot kk = true := by
+    intro kk v h1 hv
+    simp only [pyGetItemStr, ofOpt] at hv ⊢
+    rw [Dict.contains, hget kk h1]
+    cases hg : Dict.get? prot kk with
+    | none => simp [hg] at hv
+    | some x => simp [hg] at hv ⊢; exact hv
+  have hinj : ∀ enc2 encv2, prot.get? "enc" = some encv2 → reg.getEnc encv2 = .ok enc2 → enc2 = enc := by
+    intro enc2 encv2 h1 h2
+    have : some encv2 = some encv := by rw [← h1]; exact hencv
+    cases this
+    rw [hge] at h2; cases h2; rfl
+  have henc' : e.obj.prot.get? "enc" = prot.get? "enc" := hget "enc" (by decide)
+  have hkts : alg.checkKeyType sk = .ok () := by simpa [JweAlgRow.checkKeyType, hkty] using hktp
+  have heh : eHeaders e.obj { header := none, key := pk, ephemeral := some eph } = e.obj.prot := by
+    rw [hobj]; simp [eHeaders]
+  refine ⟨?_, hget⟩
+  exact c04_compact_token P L JL E K T C Z reg prot pt pk sk none none tok e h ek ⟨_, hrec, rfl⟩
+    ⟨hwrapB _ _ _ hwrap, hbi, hbc, hbt⟩
+    ⟨(hcont "alg" algv (by decide) hav).2, by simp [Dict.contains, henc', show Dict.get? prot "enc" = some encv from hencv]⟩
+    henc' huse none (by simp [guessSenderKey]) hchk algv alg (hcont "alg" algv (by decide) hav).1 hga
+    (by
+      intro enc2 encv2 h1 h2
+      have := hinj enc2 encv2 h1 h2
+      subst this
+      have hak := c04_agreed_key_ecdh_es P E T alg enc2 hcls e.obj { header := none, key := pk, ephemeral := some eph } eph rfl
+        { header := none, key := sk, senderKey := none, encryptedKey := ek } e.obj.prot epkd epk auk hagree
+        (by rw [hprot, Dict.get?_set_self]) himp hsym hkts (by rw [heh]) (by rw [heh]) (by rw [heh]) (by rw [heh])
+      unfold decryptRecipient
+      simp [hmode.1, hmode.2, htag, hak, unwrapWith, hksz, KL.aesKw _ _ _ hwrap, bind, Except.bind])
+    (by
+      intro enc2 encv2 h1 h2
+      have := hinj enc2 encv2 h1 h2
+      subst this
+      have := h8 enc2 encv2 h1 h2
+      exact ⟨by omega, by omega⟩)
+    hz
+
+/-! ## ECDH-1PU (draft), direct key agreement -/
+
+/-- **Compact JWE with ECDH-1PU direct key agreement**: encrypted to the recipient's public key with the sender's
+private key, decrypted with the recipient's private key and the sender's public key. -/
+theorem c04_compact_token_ecdh_1pu (P : Prims) (L : AeadLaws P) (O : OctLaws P)
+    (JL : ∀ v bs, P.jsonDumps v = .ok bs → IsBytes bs ∧ P.jsonLoads bs = .ok v)
+    (E : Env) (K : KeyEnv) (T : KeyTables) (C : EncConsts) (Z : ZipConsts) (reg : JweRegistry)
+    (prot : Dict) (pt : Bytes) (pk sk spriv spub : Key) (hkty : sk.kty = pk.kty) (tok : Bytes) (e : Encrypted)
+    (algv : JVal) (alg : JweAlgRow) (hav : pyGetItemStr (.obj prot) "alg" = .ok algv) (hga : reg.getAlg algv = .ok alg)
+    (hcls : (alg.cls == "ECDH1PUAlgModel") = true) (hmode : alg.directMode = true ∧ alg.agreement = true)
+    (hdhe : ∀ eph epkd, P.genEphemeral 0 pk = .ok eph → eph.asDict T (some false) [] = .ok epkd →
+      ∃ epk, importEpk P T sk.kty (.obj epkd) = .ok epk ∧ exchangeDeriveKey P E sk epk = exchangeDeriveKey P E eph pk)
+    (hdhs : exchangeDeriveKey P E sk spub = exchangeDeriveKey P E spriv pk)
+    (hspub : alg.checkKeyType spub = .ok () ∧ spub.checkUse "enc" = .ok ())
+    (h8 : ∀ enc encv, prot.get? "enc" = some encv → reg.getEnc encv = .ok enc → enc.ivSize % 8 = 0)
+    (h : encryptCompact P E K T C reg prot pt (.base (.key pk)) (some spriv) = .ok (tok, e))
+    (huse : sk.checkUse "enc" = .ok ())
+    (hchk : reg.checkHeader (.obj e.obj.prot) true = .ok ())
+    (hz : ZipUndone P Z reg e.obj.prot pt) :
+    decryptCompact P E K T Z reg tok (.base (.key sk)) (some (.key spub)) = .ok (pt, e.obj.prot) ∧
+    (∀ kk, kk ≠ "epk" → e.obj.prot.get? kk = prot.get? kk) := by
+  have hpe : performEncrypt P E T C reg { kind := .compact, prot := prot } [{ header := none, key := pk, senderKey := some spriv }] pt = .ok e := by
+    simp only [encryptCompact, guessKey, guessKeyBase, bind_eq_ok, pure_eq_ok] at h
+    obtain ⟨a, rfl, _, hu, _, _, e2, hpe, hm⟩ := h
+    simp only at hpe hm hu
+    split at hm
+    · simp only [bind_eq_ok, pure_eq_ok, Prod.mk.injEq] at hm
+      obtain ⟨_, _, _, rfl⟩ := hm
+      exact hpe
+    · simp only [bind_eq_ok] at hm
+      obtain ⟨_, hc, _⟩ := hm
+      cases hc
+  obtain ⟨hbi, hbc, hbt, hktp, enc, encv, eph, epkd, hencv, hge, hgen, hexp, hobj, hrec, hagree, hsz, hli⟩ :=
+    performEncrypt_agree_direct P O E T C reg prot pk (some spriv) pt e algv alg hav hga hmode hpe
+  obtain ⟨epk, himp, hsym⟩ := hdhe eph epkd hgen hexp
+  have hprot : e.obj.prot = Dict.set prot "epk" (.obj epkd) := by rw [hobj]
+  have hget : ∀ kk, kk ≠ "epk" → e.obj.prot.get? kk = prot.get? kk := by
+    intro kk h1
+    rw [hprot, Dict.get?_set_ne _ _ _ _ h1]
+  have hcont : ∀ kk v, kk ≠ "epk" → pyGetItemStr (.obj prot) kk = .ok v →
+      pyGetItemStr (.obj e.obj.prot) kk = .ok v ∧ Dict.contains e.obj.prot kk = true := by
+    intro kk v h1 hv
+    simp only [pyGetItemStr, ofOpt] at hv ⊢
+    rw [Dict.contains, hget kk h1]
+    cases hg : Dict.get? prot kk with
+    | none => simp [hg] at hv
+    | some x => simp [hg] at hv ⊢; exact hv
+  have hinj : ∀ enc2 encv2, prot.get? "enc" = some encv2 → reg.getEnc encv2 = .ok enc2 → enc2 = enc := by
+    intro enc2 encv2 h1 h2
+    have : some encv2 = some encv := by rw [← h1]; exact hencv
+    cases this
+    rw [hge] at h2; cases h2; rfl
+  have henc' : e.obj.prot.get? "enc" = prot.get? "enc" := hget "enc" (by decide)
+  have hkts : alg.checkKeyType sk = .ok () := by simpa [JweAlgRow.checkKeyType, hkty] using hktp
+  have heh : eHeaders e.obj { header := none, key := pk, senderKey := some spriv, ephemeral := some eph } = e.obj.prot := by
+    rw [hobj]; simp [eHeaders]
+  refine ⟨?_, hget⟩
+  exact c04_compact_token P L JL E K T C Z reg prot pt pk sk (some spriv) (some (.key spub)) tok e h [] ⟨_, hrec, rfl⟩
+    ⟨(by intro x hx; cases hx), hbi, hbc, hbt⟩
+    ⟨(hcont "alg" algv (by decide) hav).2, by simp [Dict.contains, henc', show Dict.get? prot "enc" = some encv from hencv]⟩
+    henc' huse (some spub) (by simp [guessSenderKey, hspub.2, bind, Except.bind, pure, Except.pure]) hchk algv alg
+    (hcont "alg" algv (by decide) hav).1 hga
+    (by
+      intro enc2 encv2 h1 h2
+      have := hinj enc2 encv2 h1 h2
+      subst this
+      have hak := c04_agreed_key_ecdh_1pu P E T alg enc2 hcls e.obj
+        { header := none, key := pk, senderKey := some spriv, ephemeral := some eph } eph spriv rfl rfl
+        { header := none, key := sk, senderKey := some spub, encryptedKey := [] } spub rfl e.obj.prot epkd epk e.cek none hagree
+        (by rw [hprot, Dict.get?_set_self]) himp hsym hdhs hkts hspub.1 (by rw [heh]) (by rw [heh]) (by rw [heh]) (by rw [heh])
+      unfold decryptRecipient
+      simp [hmode.1, hmode.2, hak, ensure, bind, Except.bind])
+    (by
+      intro enc2 encv2 h1 h2
+      have := hinj enc2 encv2 h1 h2
+      subst this
+      have := h8 enc2 encv2 h1 h2
+      exact ⟨by omega, hsz⟩)
+    hz
+
+/-- **Compact JWE with ECDH-1PU key agreement and AES key wrap** (the authentication tag of the content enters the key
+derivation; only CBC-HMAC content encryptions are admitted). -/
+theorem c04_compact_token_ecdh_1pu_kw (P : Prims) (L : AeadLaws P) (KL : KwLaws P) (O : OctLaws P)
+    (hwrapB : ∀ k c w, P.aesKeyWrap k c = .ok w → IsBytes w)
+    (JL : ∀ v bs, P.jsonDumps v = .ok bs → IsBytes bs ∧ P.jsonLoads bs = .ok v)
+    (E : Env) (K : KeyEnv) (T : KeyTables) (C : EncConsts) (Z : ZipConsts) (reg : JweRegistry)
+    (prot : Dict) (pt : Bytes) (pk sk spriv spub : Key) (hkty : sk.kty = pk.kty) (tok : Bytes) (e : Encrypted)
+    (algv : JVal) (alg : JweAlgRow) (hav : pyGetItemStr (.obj prot) "alg" = .ok algv) (hga : reg.getAlg algv = .ok alg)
+    (hcls : (alg.cls == "ECDH1PUAlgModel") = true) (hmode : alg.directMode = false ∧ alg.agreement = true)
+    (hdhe : ∀ eph epkd, P.genEphemeral 0 pk = .ok eph → eph.asDict T (some false) [] = .ok epkd →
+      ∃ epk, importEpk P T sk.kty (.obj epkd) = .ok epk ∧ exchangeDeriveKey P E sk epk = exchangeDeriveKey P E eph pk)
+    (hdhs : exchangeDeriveKey P E sk spub = exchangeDeriveKey P E spriv pk)
+    (hspub : alg.checkKeyType spub = .ok () ∧ spub.checkUse "enc" = .ok ())
+    (h8 : ∀ enc encv, prot.get? "enc" = some encv → reg.getEnc encv = .ok enc → enc.ivSize % 8 = 0 ∧ enc.cekSize % 8 = 0)
+    (h : encryptCompact P E K T C reg prot pt (.base (.key pk)) (some spriv) = .ok (tok, e))
+    (huse : sk.checkUse "enc" = .ok ())
+    (hchk : reg.checkHeader (.obj e.obj.prot) true = .ok ())
+    (hz : ZipUndone P Z reg e.obj.prot pt) :
+    decryptCompact P E K T Z reg tok (.base (.key sk)) (some (.key spub)) = .ok (pt, e.obj.prot) ∧
+    (∀ kk, kk ≠ "epk" → e.obj.prot.get? kk = prot.get? kk) := by
+  have hpe : performEncrypt P E T C reg { kind := .compact, prot := prot } [{ header := none, key := pk, senderKey := some spriv }] pt = .ok e := by
+    simp only [encryptCompact, guessKey, guessKeyBase, bind_eq_ok, pure_eq_ok] at h
+    obtain ⟨a, rfl, _, hu, _, _, e2, hpe, hm⟩ := h
+    simp only at hpe hm hu
+    split at hm
+    · simp only [bind_eq_ok, pure_eq_ok, Prod.mk.injEq] at hm
+      obtain ⟨_, _, _, rfl⟩ := hm
+      exact hpe
+    · simp only [bind_eq_ok] at hm
+      obtain ⟨_, hc, _⟩ := hm
+      cases hc
+  obtain ⟨hbi, hbc, hbt, hktp, enc, encv, eph, epkd, auk, ek, hencv, hge, hgen, hexp, hobj, hrec, hagree, hksz, hwrap, hlc, hli⟩ :=
+    performEncrypt_agree_wrap P O E T C reg prot pk (some spriv) pt e algv alg hav hga hmode hpe
+  obtain ⟨epk, himp, hsym⟩ := hdhe eph epkd hgen hexp
+  have hprot : e.obj.prot = Dict.set prot "epk" (.obj epkd) := by rw [hobj]
+  have hget : ∀ kk, kk ≠ "epk" → e.obj.prot.get? kk = prot.get? kk := by
+    intro kk h1
+    rw [hprot, Dict.get?_set_ne _ _ _ _ h1]
+  have hcont : ∀ kk v, kk ≠ "epk" → pyGetItemStr (.obj prot) kk = .ok v →
+      pyGetItemStr (.obj e.obj.prot) kk = .ok v ∧ Dict.contains e.obj.prot kk = true := by
+    intro kk v h1 hv
+    simp only [pyGetItemStr, ofOpt] at hv ⊢
+    rw [Dict.contains, hget kk h1]
+    cases hg : Dict.get? prot kk with
+    | none => simp [hg] at hv
+    | some x => simp [hg] at hv ⊢; exact hv
+  have hinj : ∀ enc2 encv2, prot.get? "enc" = some encv2 → reg.getEnc encv2 = .ok enc2 → enc2 = enc := by
+    intro enc2 encv2 h1 h2
+    have : some encv2 = some encv := by rw [← h1]; exact hencv
+    cases this
+    rw [hge] at h2; cases h2; rfl
+  have henc' : e.obj.prot.get? "enc" = prot.get? "enc" := hget "enc" (by decide)
+  have hkts : alg.checkKeyType sk = .ok () := by simpa [JweAlgRow.checkKeyType, hkty] using hktp
+  have heh : eHeaders e.obj { header := none, key := pk, senderKey := some spriv, ephemeral := some eph } = e.obj.prot := by
+    rw [hobj]; simp [eHeaders]
+  refine ⟨?_, hget⟩
+  exact c04_compact_token P L JL E K T C Z reg prot pt pk sk (some spriv) (some (.key spub)) tok e h ek ⟨_, hrec, rfl⟩
+    ⟨hwrapB _ _ _ hwrap, hbi, hbc, hbt⟩
+    ⟨(hcont "alg" algv (by decide) hav).2, by simp [Dict.contains, henc', show Dict.get? prot "enc" = some encv from hencv]⟩
+    henc' huse (some spub) (by simp [guessSenderKey, hspub.2, bind, Except.bind, pure, Except.pure]) hchk algv alg
+    (hcont "alg" algv (by decide) hav).1 hga
+    (by
+      intro enc2 encv2 h1 h2
+      have := hinj enc2 encv2 h1 h2
+      subst this
+      have hak := c04_agreed_key_ecdh_1pu P E T alg enc2 hcls e.obj
+        { header := none, key := pk, senderKey := some spriv, ephemeral := some eph } eph spriv rfl rfl
+        { header := none, key := sk, senderKey := some spub, encryptedKey := ek } spub rfl e.obj.prot epkd epk auk
+        (if alg.tagAware then some e.tag else none) hagree
+        (by rw [hprot, Dict.get?_set_self]) himp hsym hdhs hkts hspub.1 (by rw [heh]) (by rw [heh]) (by rw [heh]) (by rw [heh])
+      unfold decryptRecipient
+      simp [hmode.1, hmode.2, hak, unwrapWith, hksz, KL.aesKw _ _ _ hwrap, bind, Except.bind])
+    (by
+      intro enc2 encv2 h1 h2
+      have := hinj enc2 encv2 h1 h2
+      subst this
+      have := h8 enc2 encv2 h1 h2
+      exact ⟨by omega, by omega⟩)
     hz
 
 end Jose.C04
